@@ -118,8 +118,33 @@ func readerFiles(c *driverCtx, withLarge bool) []readerFile {
 			out = append(out, readerFile{name: l.name, codec: codec, bytes: w.out, inputs: vals})
 		}
 	}
+	// files no writer of this library would produce but any conformant writer may: blocks declaring zero records
+	// (empty payload) between ordinary blocks, at the start and at the end
+	for _, codec := range codecs3 {
+		vals := make([]reflect.Value, 3)
+		raws := make([][]byte, 3)
+		ok := true
+		for i := range vals {
+			p := reflect.New(st.typ)
+			p.Elem().Set(reflect.ValueOf(mkRRec(c, i, false)))
+			vals[i] = p.Elem()
+			raw, err := primWriteRecord(st.typ, vals[i])
+			if err != nil {
+				ok = false
+			}
+			raws[i] = raw
+		}
+		if !ok {
+			continue
+		}
+		two := append(append([]byte{}, raws[0]...), raws[1]...)
+		blocks := [][2]any{{0, []byte{}}, {2, two}, {0, []byte{}}, {0, []byte{}}, {1, raws[2]}, {0, []byte{}}}
+		out = append(out, readerFile{name: "zero-count-blocks", codec: codec, bytes: buildContainer([]byte(rrecSchemaJSON), codec, true, []byte("0123456789abcdef"), blocks), inputs: vals})
+	}
 	return out
 }
+
+const rrecSchemaJSON = `{"type":"record","name":"RRec","fields":[{"name":"id","type":"long"},{"name":"name","type":"string"},{"name":"tags","type":["null",{"type":"array","items":"string"}]},{"name":"f","type":"double"},{"name":"opt","type":["null","long"]}]}`
 
 var errSentinel = errors.New("callback sentinel")
 
@@ -317,7 +342,7 @@ func driveC07(c *driverCtx) error {
 	}
 	// header variants, written with the harness's own container writer
 	st := staticOf[RRec]("RRec")
-	schemaJSON := []byte(`{"type":"record","name":"RRec","fields":[{"name":"id","type":"long"},{"name":"name","type":"string"},{"name":"tags","type":["null",{"type":"array","items":"string"}]},{"name":"f","type":"double"},{"name":"opt","type":["null","long"]}]}`)
+	schemaJSON := []byte(rrecSchemaJSON)
 	sync := []byte("0123456789abcdef")
 	rec := RRec{ID: 5, Name: "x", F: 2}
 	p := reflect.New(st.typ)
